@@ -36,6 +36,23 @@ class Scenario:
         self.shards = shards          # the path tree is partitioned over this many worker tasks
 
 
+def tier_scenarios(prop, tier):
+    """scenario list of a tier.  thorough = every quick scenario (unchanged) + the deeper scenarios; a deeper scenario that
+    re-uses the name of a quick one with other parameters is renamed <name>.deep"""
+    if tier != 'thorough':
+        return prop.scenarios(tier)
+    quick = prop.scenarios('quick')
+    qp = {s.name: s for s in quick}
+    out = []
+    for s in prop.scenarios('thorough'):
+        if s.name in qp:
+            if repr(sorted(s.params.items(), key=str)) == repr(sorted(qp[s.name].params.items(), key=str)):
+                continue
+            s.name = s.name + '.deep'
+        out.append(s)
+    return quick + out
+
+
 def load_prop(pid):
     if VERIF not in sys.path:
         sys.path.insert(0, VERIF)
@@ -148,7 +165,7 @@ def run_scenario(task):
             cache.clear()
         del core.DEFS[:]
         prop = load_prop(pid)
-        scn = [s for s in prop.scenarios(tier) + (prop.scenarios('quick') if tier != 'quick' else []) if s.name == sname][0]
+        scn = [s for s in tier_scenarios(prop, tier) if s.name == sname][0]
         res['twin'] = scn.twin
         res['bounds'] = scn.bounds
         rnd = random.Random((seed, sname).__repr__())
@@ -559,7 +576,8 @@ def replay(pid, path):
     from . import install
     install.load()
     prop = load_prop(pid)
-    scn = [s for s in prop.scenarios(rec.get('tier', 'quick')) + prop.scenarios('thorough') if s.name == rec['scenario']][0]
+    scn = [s for s in tier_scenarios(prop, rec.get('tier', 'quick')) + tier_scenarios(prop, 'thorough')
+           if s.name == rec['scenario']][0]
     _apply_setup(scn.setup)
     rec['script'] = [(k, v) for k, v in rec.get('script', [])]
     level = rec.get('level', 1)
@@ -677,10 +695,7 @@ def main(argv=None):
     seed = int(os.environ.get('VERIF_SEED', '0') or 0)
     t0 = time.time()
     prop = load_prop(pid)
-    scns = prop.scenarios(a.tier)
-    if a.tier == 'thorough':
-        have = {s.name for s in scns}
-        scns = scns + [s for s in prop.scenarios('quick') if s.name not in have]
+    scns = tier_scenarios(prop, a.tier)
     if a.only:
         scns = [s for s in scns if fnmatch.fnmatch(s.name, a.only)]
     if a.budget is None:
